@@ -189,3 +189,31 @@ func RunReplayTimeout(h func(), seconds int) (failed []string, panicked interfac
 		return Failed, "timeout", false
 	}
 }
+
+// Quiesce blocks until every other harness goroutine has finished or is blocked.
+// Natively this is approximated by waiting (replay of schedule-dependent
+// violations is driven by the recorded schedule, see replay notes).
+func Quiesce() { nativeQuiesce() }
+
+// Yield is an explicit scheduling point.
+func Yield() { nativeYield() }
+
+// Share marks the object behind the pointer as shared between threads
+// (fine-grained interleaving mode makes its plain loads/stores visible).
+func Share(p interface{}) {}
+
+// WaitFor blocks until *flag is true.
+func WaitFor(flag *bool) {
+	for {
+		mu.Lock()
+		v := *flag
+		mu.Unlock()
+		if v {
+			return
+		}
+		nativeYield()
+	}
+}
+
+// Finished reports whether harness thread id (in spawn order, 1-based) has returned.
+func Finished(id int) bool { return false }
